@@ -188,7 +188,9 @@ pub fn parse_tx_csv(
     parse_options: &TxCsvParseOptions,
     err_stream: &mut WriteHandle,
 ) -> Result<Vec<CsvTx>, Error> {
-    let mut reader_box = desc_reader.reader().map_err(|e| e.to_string())?;
+    let mut reader_box = desc_reader
+        .reader()
+        .map_err(|e| format!("Unable to read {}: {}", desc_reader.desc(), e))?;
     let reader: &mut dyn Read = reader_box.borrow_mut();
 
     let mut csv_r = csv::ReaderBuilder::new().has_headers(true).from_reader(reader);
